@@ -161,10 +161,24 @@ def make_active_cfg(seed, i):
     return cfg
 
 
+# regression cases for repaired defects that only a particular seed of the random workload had reached (a fixed entry of
+# KNOWN_FINDINGS.txt suppresses nothing: if the defect returns, these report it in every run)
+REGRESSION = [
+    # a4aaa6a: x0 a denormal above a bound + growing initial set -> zero-length direction normalised to NaN -> objfun called at NaN
+    dict(prob=dict(kind="rosen", n=3, m=1, pseed=845931981), x0=[0.5801240049765265, 2.4290886328325557e-14, 5e-324],
+         lower=[0.01, -0.0, -0.0], upper=[0.66, 3.0, None], args=dict(rhobeg=0.1, rhoend=0.001, maxfun=30),
+         user_params={"growing.ndirs_initial": 1}, _salt=0),   # (_salt only selects the random directions: 10 of 30 salts reach it)
+    dict(prob=dict(kind="rosen", n=3, m=1, pseed=845931981), x0=[0.5801240049765265, 2.4290886328325557e-14, 5e-324],
+         lower=[0.01, -0.0, -0.0], upper=[0.66, 3.0, None], args=dict(rhobeg=0.1, rhoend=0.001, maxfun=30),
+         user_params={"growing.ndirs_initial": 1}, _salt=5),
+]
+
+
 def cases(tier, seed):
     nw = N[tier] // 2
     out = [dict(i=i, seed=seed, type="wide") for i in range(nw)]
     out += [dict(i=nw + j, seed=seed, type="active") for j in range(N[tier] - nw)]
+    out += [dict(i=N[tier] + k, seed=seed, type="regression", cfg=c) for k, c in enumerate(REGRESSION)]
     return out
 
 
